@@ -99,44 +99,44 @@ macro_rules! sumc_n3_shapes {
     }};
 }
 
-// @harness name=sumc_n3_len2_l0_0 props=C07 kind=bounded bound="3 commitments, first of length 0, the other two of every length <= 2 (9 shapes), all element values" tier=quick backs="sum_commitments.ensures (assumed in V): index-wise sum; Err(IncorrectNumberOfCommitments) iff empty list or a later commitment shorter than the first; longer later commitments are truncated" expect=pass
+// @harness name=sumc_n3_len2_l0_0 props=C07,C09,C10,C14 kind=bounded bound="3 commitments, first of length 0, the other two of every length <= 2 (9 shapes), all element values" tier=quick backs="sum_commitments.ensures (assumed in V): index-wise sum; Err(IncorrectNumberOfCommitments) iff empty list or a later commitment shorter than the first; longer later commitments are truncated" expect=pass
 #[kani::proof]
 #[kani::unwind(6)]
 fn sumc_n3_len2_l0_0() {
     sumc_n3_shapes!(0, 2);
 }
-// @harness name=sumc_n3_len2_l0_1 props=C07 kind=bounded bound="3 commitments, first of length 1, the other two of every length <= 2 (9 shapes), all element values" tier=quick backs="sum_commitments.ensures, as sumc_n3_len2_l0_0" expect=pass
+// @harness name=sumc_n3_len2_l0_1 props=C07,C09,C10,C14 kind=bounded bound="3 commitments, first of length 1, the other two of every length <= 2 (9 shapes), all element values" tier=quick backs="sum_commitments.ensures, as sumc_n3_len2_l0_0" expect=pass
 #[kani::proof]
 #[kani::unwind(6)]
 fn sumc_n3_len2_l0_1() {
     sumc_n3_shapes!(1, 2);
 }
-// @harness name=sumc_n3_len2_l0_2 props=C07 kind=bounded bound="3 commitments, first of length 2, the other two of every length <= 2 (9 shapes), all element values" tier=quick backs="sum_commitments.ensures, as sumc_n3_len2_l0_0" expect=pass
+// @harness name=sumc_n3_len2_l0_2 props=C07,C09,C10,C14 kind=bounded bound="3 commitments, first of length 2, the other two of every length <= 2 (9 shapes), all element values" tier=quick backs="sum_commitments.ensures, as sumc_n3_len2_l0_0" expect=pass
 #[kani::proof]
 #[kani::unwind(6)]
 fn sumc_n3_len2_l0_2() {
     sumc_n3_shapes!(2, 2);
 }
 
-// @harness name=sumc_n3_len3_l0_0 props=C07 kind=bounded bound="3 commitments, first of length 0, the other two of every length <= 3 (16 shapes), all element values" tier=thorough backs="sum_commitments.ensures, as sumc_n3_len2_l0_0" expect=pass
+// @harness name=sumc_n3_len3_l0_0 props=C07,C09,C10,C14 kind=bounded bound="3 commitments, first of length 0, the other two of every length <= 3 (16 shapes), all element values" tier=thorough backs="sum_commitments.ensures, as sumc_n3_len2_l0_0" expect=pass
 #[kani::proof]
 #[kani::unwind(6)]
 fn sumc_n3_len3_l0_0() {
     sumc_n3_shapes!(0, 3);
 }
-// @harness name=sumc_n3_len3_l0_1 props=C07 kind=bounded bound="3 commitments, first of length 1, the other two of every length <= 3 (16 shapes), all element values" tier=thorough backs="sum_commitments.ensures, as sumc_n3_len2_l0_0" expect=pass
+// @harness name=sumc_n3_len3_l0_1 props=C07,C09,C10,C14 kind=bounded bound="3 commitments, first of length 1, the other two of every length <= 3 (16 shapes), all element values" tier=thorough backs="sum_commitments.ensures, as sumc_n3_len2_l0_0" expect=pass
 #[kani::proof]
 #[kani::unwind(6)]
 fn sumc_n3_len3_l0_1() {
     sumc_n3_shapes!(1, 3);
 }
-// @harness name=sumc_n3_len3_l0_2 props=C07 kind=bounded bound="3 commitments, first of length 2, the other two of every length <= 3 (16 shapes), all element values" tier=thorough backs="sum_commitments.ensures, as sumc_n3_len2_l0_0" expect=pass
+// @harness name=sumc_n3_len3_l0_2 props=C07,C09,C10,C14 kind=bounded bound="3 commitments, first of length 2, the other two of every length <= 3 (16 shapes), all element values" tier=thorough backs="sum_commitments.ensures, as sumc_n3_len2_l0_0" expect=pass
 #[kani::proof]
 #[kani::unwind(6)]
 fn sumc_n3_len3_l0_2() {
     sumc_n3_shapes!(2, 3);
 }
-// @harness name=sumc_n3_len3_l0_3 props=C07 kind=bounded bound="3 commitments, first of length 3, the other two of every length <= 3 (16 shapes), all element values" tier=thorough backs="sum_commitments.ensures, as sumc_n3_len2_l0_0" expect=pass
+// @harness name=sumc_n3_len3_l0_3 props=C07,C09,C10,C14 kind=bounded bound="3 commitments, first of length 3, the other two of every length <= 3 (16 shapes), all element values" tier=thorough backs="sum_commitments.ensures, as sumc_n3_len2_l0_0" expect=pass
 #[kani::proof]
 #[kani::unwind(6)]
 fn sumc_n3_len3_l0_3() {
@@ -156,20 +156,20 @@ macro_rules! sumc_n2_shapes {
         }
     }};
 }
-// @harness name=sumc_n2_a props=C07 kind=bounded bound="2 commitments, first of length 0..1, second of every length <= 3 (8 shapes), all element values" tier=quick backs="sum_commitments.ensures, as sumc_n3_len2_l0_0" expect=pass
+// @harness name=sumc_n2_a props=C07,C09,C10,C14 kind=bounded bound="2 commitments, first of length 0..1, second of every length <= 3 (8 shapes), all element values" tier=quick backs="sum_commitments.ensures, as sumc_n3_len2_l0_0" expect=pass
 #[kani::proof]
 #[kani::unwind(6)]
 fn sumc_n2_a() {
     sumc_n2_shapes!(0, 1);
 }
-// @harness name=sumc_n2_b props=C07 kind=bounded bound="2 commitments, first of length 2..3, second of every length <= 3 (8 shapes), all element values" tier=quick backs="sum_commitments.ensures, as sumc_n3_len2_l0_0" expect=pass
+// @harness name=sumc_n2_b props=C07,C09,C10,C14 kind=bounded bound="2 commitments, first of length 2..3, second of every length <= 3 (8 shapes), all element values" tier=quick backs="sum_commitments.ensures, as sumc_n3_len2_l0_0" expect=pass
 #[kani::proof]
 #[kani::unwind(6)]
 fn sumc_n2_b() {
     sumc_n2_shapes!(2, 3);
 }
 
-// @harness name=sumc_n01 props=C07 kind=bounded bound="0 or 1 commitments of every length <= 3, all element values" tier=quick backs="sum_commitments.ensures: empty list -> Err(IncorrectNumberOfCommitments); single commitment -> itself" expect=pass
+// @harness name=sumc_n01 props=C07,C09,C10,C14 kind=bounded bound="0 or 1 commitments of every length <= 3, all element values" tier=quick backs="sum_commitments.ensures: empty list -> Err(IncorrectNumberOfCommitments); single commitment -> itself" expect=pass
 #[kani::proof]
 #[kani::unwind(6)]
 fn sumc_n01() {
@@ -182,7 +182,7 @@ fn sumc_n01() {
 }
 
 // Negative control: claims a LONGER later commitment is rejected -> must FAIL (the code truncates).
-// @harness name=sumc_negctl_longer_rejected props=C07 kind=bounded bound="2 commitments of lengths 1 and 2" tier=quick backs="vacuity guard for sumc_sum_commitments; documents that longer later commitments are accepted" expect=fail
+// @harness name=sumc_negctl_longer_rejected props=C07,C09,C10,C14 kind=bounded bound="2 commitments of lengths 1 and 2" tier=quick backs="vacuity guard for sumc_sum_commitments; documents that longer later commitments are accepted" expect=fail
 #[kani::proof]
 #[kani::unwind(5)]
 fn sumc_negctl_longer_rejected() {
@@ -229,7 +229,7 @@ impl TryCryptoRng for ReplayRng {}
 
 // output[i] == Field::random of the i-th DISJOINT 2-byte segment of the stream; length == size; the RNG is
 // advanced by exactly 2*size bytes (nothing else is drawn).
-// @harness name=coeffs_generate_coefficients props=C16 kind=bounded bound="size <= 4, all RNG byte streams" tier=quick backs="generate_coefficients.ensures (assumed in V): |out| == size, out[i] == scalar_of(stream[p+2i .. p+2i+2]), pos' == pos + 2*size" expect=pass
+// @harness name=coeffs_generate_coefficients props=C16,C03,C06,C07,C10,C11 kind=bounded bound="size <= 4, all RNG byte streams" tier=quick backs="generate_coefficients.ensures (assumed in V): |out| == size, out[i] == scalar_of(stream[p+2i .. p+2i+2]), pos' == pos + 2*size" expect=pass
 #[kani::proof]
 #[kani::unwind(6)]
 fn coeffs_generate_coefficients() {
@@ -251,7 +251,7 @@ fn coeffs_generate_coefficients() {
 
 // Negative control: claims the second coefficient is drawn from the FIRST segment (a "one coefficient
 // repeated" mutant would make this true) -> must FAIL.
-// @harness name=coeffs_negctl_same_segment props=C16 kind=bounded bound="size == 2" tier=quick backs="vacuity guard for coeffs_generate_coefficients" expect=fail
+// @harness name=coeffs_negctl_same_segment props=C16,C03,C06,C07,C10,C11 kind=bounded bound="size == 2" tier=quick backs="vacuity guard for coeffs_generate_coefficients" expect=fail
 #[kani::proof]
 #[kani::unwind(6)]
 fn coeffs_negctl_same_segment() {
